@@ -1225,6 +1225,8 @@ fn cmd_codec_cases(args: &[String]) {
             "exact" => (e as u32, e),
             "pad" => ((e + 1 + ci % 7) as u32, e + 1 + ci % 7),
             "eof" => ((e + 9) as u32, e / 2),
+            // exactly the bound: accepted (the payload is only materialised when the header is one the reader gets past)
+            "max0" => (BOUND as u32, if c["cut"] == "full" && c["magic"] == "ok" && c["ver"] == 1 && (1..=7).contains(&c["type"].as_u64().unwrap()) { BOUND } else { e }),
             "max1" => ((BOUND + 1) as u32, e),
             _ => (u32::MAX, e),
         };
@@ -1258,7 +1260,7 @@ fn cmd_codec_cases(args: &[String]) {
         if got == "Ok" && !inner_applies { if let Ok(Ok(m)) = &r { if *m != msg { w.write(&json!({"kind":"violation","case":ci,"what":"decoded message differs from the original","input":inp})); } } }
         if peak > BOUND + (1 << 20) + 2 * e || one > BOUND + 4096 { w.write(&json!({"kind":"violation","case":ci,"what":format!("read_message reserved {peak} bytes (largest single request {one}) > 16 MiB bound"),"input":inp})); }
         // the same bytes arriving in short reads (a pipe or socket hands over what it has): same outcome, same value
-        for chunk in [1usize, 5, 11 + ci % 3] {
+        for chunk in (if lenc == "max0" { [1usize << 20, 65537, (1 << 22) + 1] } else { [1usize, 5, 11 + ci % 3] }) {
             let r2 = catch_unwind(AssertUnwindSafe(|| { let mut codec = Codec::new(); codec.read_message(&mut ShortReads { data: &stream[..], pos: 0, chunk }) }));
             evals += 1;
             let got2 = codecx::class(&r2);
@@ -1282,12 +1284,12 @@ fn cmd_codec_cases(args: &[String]) {
             }
         }
         // Message::decode on the frame's payload bytes
-        if c["cut"] == "full" && matches!(lenc, "zero" | "trunc" | "exact" | "pad" | "innerhuge") {
+        if c["cut"] == "full" && matches!(lenc, "zero" | "trunc" | "exact" | "pad" | "max0" | "innerhuge") && body.len() >= (decl as usize).min(BOUND) {
             let pl = &body[..(decl as usize).min(body.len())];
             let (r, peak, _one) = countalloc::measure(|| catch_unwind(|| Message::decode(pl)));
             evals += 1;
             let got = codecx::class(&r);
-            let wantm = if matches!(lenc, "exact" | "pad") || (lenc == "innerhuge" && !inner_applies) { "Ok" } else { "Protocol" };
+            let wantm = if matches!(lenc, "exact" | "pad" | "max0") || (lenc == "innerhuge" && !inner_applies) { "Ok" } else { "Protocol" };
             if got == "PANIC" || got != wantm { w.write(&json!({"kind": if got == "PANIC" || wantm == "Ok" {"violation"} else {"nonconf"},"case":ci,"what":format!("Message::decode -> {got}, spec {wantm}"),"input":inp})); }
             if peak > BOUND { w.write(&json!({"kind":"violation","case":ci,"what":format!("Message::decode reserved {peak} bytes"),"input":inp})); }
         }
